@@ -375,13 +375,22 @@ class StmtMixin:
         before_vars = dict(env.vars)
         before_heap = dict(env.heap)
         probe = env.clone()
-        self.quiet += 1
+        # The probe doubles as the peeled first iteration: it starts from the real entry state with the loop test
+        # assumed, so what it reads and raises involves input symbols only and is decided like straight-line code
+        # (the summarised pass below covers the later iterations and needs inductive invariants for the same reads).
+        peel = not self.quiet and not getattr(self, "no_peel", False)
+        if peel:
+            probe.add_fact(c0)
+            probe.pc.append(c0)
+        else:
+            self.quiet += 1
         self.loop_stack.append({"breaks": [], "kind": "probe"})
         try:
             self.block(s.body, probe, mod, fn, [])
         finally:
             self.loop_stack.pop()
-            self.quiet -= 1
+            if not peel:
+                self.quiet -= 1
         assigned = {n.id for st in s.body for n in ast.walk(st) if isinstance(n, ast.Name) and isinstance(n.ctx, ast.Store)}
         mod_vars = set(k for k, v in probe.vars.items() if k in before_vars and before_vars[k] != v) | (assigned & set(before_vars))
         # mutated containers (x.append(..)) also show up as changed values in the probe
